@@ -24,8 +24,32 @@ class BuilderGen:
         self.res = builderdesc.resolve(facts["builder"]["methods"])
 
     def sink_of(self, name):
+        """sink class of a method: from its translated descriptor, else (method not recognised by the
+        translator) from the layout class of the method's opcode"""
         d = self.res.get(name)
-        return d[0]["sink"]["sink"] if d else None
+        if d:
+            return d[0]["sink"]["sink"]
+        op = self.method_opcode(name)
+        if op is None or not hasattr(self, "lay"):
+            return None
+        tok, sec = self.lay.token(self.g.opnum[op])
+        if tok == "module":
+            return "dedup_type" if (sec == 10 and name.startswith("type_")) else "section"
+        return {"terminator": "end_block", "varundef": "block_else_global", "line": "line_rule", "block_inst": "block"}.get(tok)
+
+    def emitting_methods(self):
+        """every public method that emits an instruction, whether or not the translator recognised its body"""
+        skip = {"new", "new_from_module", "module", "module_ref", "module_mut", "pop_instruction", "select_function",
+                "select_block", "version", "selected_function", "selected_block", "find_return_block_indices",
+                "select_function_by_name", "dedup_insert_type", "insert_into_block", "insert_types_global_values",
+                "begin_function", "end_function", "function_parameter", "begin_block", "begin_block_no_label", "id", "set_version"}
+        out = []
+        for n, m in self.methods.items():
+            if n in skip:
+                continue
+            if all(builderdesc.ptype(t, self.enums, self.flags)[0] or t == "spirv :: Op" for _, t in m["params"]) and self.method_opcode(n):
+                out.append(n)
+        return sorted(out)
 
     def arg(self, pname, ptype_s, prev_enum=None):
         r = self.rng
